@@ -62,6 +62,37 @@ VH_GROUP(equal)
     vh::ubsan_counts() = false;
     AlgoStats st{ctx, "equal_pixels"};
     mp::mp_for_each<mp::mp_iota_c<N * N>>(PairLoop<EqualAlg>{st, EqualAlg(), int(ctx.B("S", 3)), 4});
+    // Two operands that are views of the SAME buffer, of the same type, with the same first pixel and the same dimensions, but a different
+    // row stride (a 2x2 corner of a 4x4 image vs. a 2x2 interleaved view laid over its first four pixels): they hold different pixels,
+    // so equal_pixels is false for the concrete call and must be false for every run-time typed overload (a shortcut on "the two views
+    // compare equal" is wrong: view equality looks at the first pixel and the dimensions only).  Also a view against itself (true).
+    if (ctx.take())
+    {
+        auto one = [&](auto tag_img, const char* name) {
+            using I = decltype(tag_img);
+            I img(4, 4);
+            int n = 0; for (auto& p : gil::view(img)) { for (int c = 0; c < int(gil::num_channels<I>::value); ++c) p[c] = typename gil::channel_type<I>::type(10 + 7 * n + c); ++n; }
+            auto v = gil::view(img);
+            auto a = gil::subimage_view(v, 0, 0, 2, 2);
+            auto b = gil::interleaved_view(2, 2, &v(0, 0), std::ptrdiff_t(2 * sizeof(typename I::value_type)));
+            struct Pair { decltype(a) x; decltype(a) y; const char* what; };
+            Pair pairs[] = {{a, b, "corner-vs-relaid"}, {b, a, "relaid-vs-corner"}, {a, a, "view-vs-itself"}};
+            for (auto const& pr : pairs)
+            {
+                const bool want = gil::equal_pixels(pr.x, pr.y);
+                AnyView ax(pr.x), ay(pr.y);
+                const bool g1 = gil::equal_pixels(ax, ay), g2 = gil::equal_pixels(ax, pr.y), g3 = gil::equal_pixels(pr.x, ay);
+                ctx.evaluations += 3; ctx.nontrivial += 3;
+                const std::string id = std::string("equal_pixels/aliasing/") + name + "/" + pr.what;
+                if (g1 != want) ctx.fail(id + "/any,any", "result-differs-from-concrete", want ? "concrete true" : "concrete false");
+                if (g2 != want) ctx.fail(id + "/any,view", "result-differs-from-concrete", want ? "concrete true" : "concrete false");
+                if (g3 != want) ctx.fail(id + "/view,any", "result-differs-from-concrete", want ? "concrete true" : "concrete false");
+                ++ctx.witness["equal_aliasing_operands"];
+            }
+        };
+        one(gil::gray8_image_t(), "gray8");
+        one(gil::rgb8_image_t(), "rgb8");
+    }
 }
 
 VH_MAIN
